@@ -42,7 +42,10 @@
 (*   version 1: one tracked script constant (tag 11), calls the registered *)
 (*              closures 1 and 2: main() returns (11, tag of the           *)
 (*              registered constant, counter 1 ++, counter 2 ++)           *)
-(*   version 2: two tracked script constants (22 + 20), calls the          *)
+(*   version 2: two tracked script constants (22 + 20) in a LARGE constant  *)
+(*              section (36 further constants of a 128-byte record type,   *)
+(*              more than a page of constant storage, of which main()      *)
+(*              reads the first, a middle and the last one), calls the     *)
 (*              registered closures 2 and 3: main() returns (42, tag of    *)
 (*              the registered constant, counter 2 ++, counter 3 ++)       *)
 (* so closure 1 is needed only by version-1 modules, closure 3 only by     *)
